@@ -69,10 +69,21 @@ def inner_loops(F):
     return mod_id, stack_id, pre, outer, inner, post
 
 
+def prefix_stmts(F):
+    """all statements of Used::new before the worklist loop, `let`s included"""
+    out = []
+    for s in F.hir[UN]['body']['stmts']:
+        e = s.get('e', s) if s['k'] == 'Semi' else s
+        if e.get('k') == 'Loop':
+            break
+        out.append(s)
+    return out
+
+
 def push_kind(F, e):
     """kind pushed by an effect: from the callee's parameter type (Roots::push_*) or the set inserted into"""
     callee = e['callee']
-    if 'Roots::push_' in callee:
+    if callee.startswith('passes::used::Roots::'):
         h = F.hir.get(callee)
         if h and len(h['params']) >= 2:
             return id_kind(h['params'][1].get('ty', ''))
@@ -144,8 +155,14 @@ def run(ctx):
         res.error('Used::new does not have the roots / worklist-loop shape: %r' % (e,))
         return res
     env = {mod_id: sym('module'), stack_id: sym('stack')}
-    pol = Policy(effects=[r'passes::used::Roots::push_', r'HashSet::insert$', r'dfs_in_order$', r'add_gc_roots$'],
-                 inline=lambda p: not (p.startswith('passes::used::Roots::') or 'dfs_in_order' in p))
+    # primitive pushes = methods of Roots taking an id (they mark it used and queue it); any other helper on Roots
+    # (one that takes a ConstExpr, an offset, ...) is looked through
+    prim = set()
+    for p, h in F.hir.items():
+        if p.startswith('passes::used::Roots::') and len(h.get('params', [])) >= 2 and id_kind(h['params'][1].get('ty', '')):
+            prim.add(p)
+    pol = Policy(effects=lambda p: p in prim or bool(re.search(r'HashSet::insert$|dfs_in_order$|add_gc_roots$', p)),
+                 inline=lambda p: not (p in prim or 'dfs_in_order' in p))
     ev = Evaluator(F, pol)
     loops_by_kind = {}
     for n in inner:
@@ -250,7 +267,7 @@ def run(ctx):
                 res.ok(key, {'position': short + show_path(path), 'delegated_to': 'dfs_in_order::<UsedVisitor>'})
             else:
                 res.bad(key, 'function bodies are not traversed with the UsedVisitor')
-    check_roots(F, res, ev, env, pre, post, tracked)
+    check_roots(F, res, ev, env, pre, post, tracked, prefix=prefix_stmts(F))
     res.exhaustive = True
     return res
 
@@ -299,31 +316,101 @@ def offsets_are_numeric(F):
     return okk == 2
 
 
-def check_roots(F, res, ev, env, pre, post, tracked):
-    """documented roots: exports, start, active data, active elements of imported tables, declared elements, custom sections"""
+def mentions_term(t, what):
+    if t == what:
+        return True
+    if isinstance(t, (tuple, list)):
+        return any(mentions_term(x, what) for x in t)
+    return False
+
+
+def event_cond(w, root):
+    """the conditions of world w that talk about one loop element (or value) `root`"""
+    out = []
+    for k, v in w.assumptions:
+        if isinstance(k, tuple) and k and k[0] == 'atom':
+            if mentions_term(k[1], root):
+                out.append('%s=%s' % (show(k[1]), v))
+        elif isinstance(v, tuple) and v and v[0] == 'ctor' and mentions_term(k, root):
+            out.append('%s is %s' % (show(k), v[2]))
+    return '; '.join(out)
+
+
+KIND_OF_EXPORT = {'Function': 'module::functions::Function', 'Table': 'module::tables::Table',
+                  'Memory': 'module::memories::Memory', 'Global': 'module::globals::Global'}
+
+
+def check_roots(F, res, ev, env, pre, post, tracked, prefix=None):
+    """documented roots: exports, start, active data, active elements of imported tables, declared elements, custom sections.
+    Everything before the worklist loop (initialisers included, helpers looked through) is evaluated as one block; each
+    push is classified from its own argument and from the conditions on the element it was taken from."""
     seen = set()
     extra = []
-    for node in pre:
-        try:
-            worlds = ev.run_node(UN, node, env)
-        except EvalError as e:
-            res.error('root statement at line %s not analysable: %s' % (node.get('l'), e))
+    h = F.hir[UN]
+    block = {'k': 'Block', 'stmts': list(prefix or []), 'l': h['body'].get('l')}
+    env0 = {k: v for k, v in env.items() if v == sym('module')}
+    try:
+        worlds = ev.run_node(UN, block, env0)
+    except EvalError as e:
+        res.error('root statements of Used::new not analysable: %s' % e)
+        worlds = []
+    for w in worlds:
+        if w.outcome == 'panic':
             continue
-        for w in worlds:
-            pushes = [e for e in w.trace if e['kind'] == 'call' and ('Roots::push_' in e['callee'] or e['callee'].endswith('add_gc_roots'))]
-            cond = cond_text(w)
-            for e in pushes:
-                arg = show(e['args'][-1]) if not e['callee'].endswith('add_gc_roots') else show(e['args'][0])
-                name = e['callee'].split('::')[-1]
-                cat = classify_root(name, arg, cond)
-                if cat is None:
-                    extra.append('%s(%s) when [%s]' % (name, arg, cond))
+        pushed_roots = {}
+        for e in w.trace:
+            if e['kind'] != 'call':
+                continue
+            if e['callee'].endswith('add_gc_roots'):
+                if 'customs' in show(e['args'][0]):
+                    seen.add('custom-sections')
                 else:
-                    seen.add(cat)
-            # conditions under which documented roots must be pushed
-            r = required_root(w, cond)
-            if r and not pushes:
-                res.bad('roots/missing/' + r, 'root category "%s" is not pushed when [%s]' % (r, cond))
+                    extra.append('add_gc_roots(%s)' % show(e['args'][0])[:60])
+                continue
+            kind = push_kind(F, e)
+            if kind is None or not e['callee'].startswith('passes::used::Roots::'):
+                continue
+            arg = e['args'][-1]
+            r, pth = peel(arg)
+            sa, sr = show(arg), show(r)
+            cond = event_cond(w, r)
+            short = kind.split('::')[-1]
+            cat = None
+            if 'module.exports' in sr:
+                m = re.search(r'item\.(\w+)\.0$', sa)
+                if m and KIND_OF_EXPORT.get(m.group(1)) == kind:
+                    cat = 'export:' + m.group(1)
+            elif sa.startswith('module.start'):
+                cat = 'start' if short == 'Function' else None
+            elif short == 'Data' and 'module.data' in sr and re.search(r'kind is Active', cond):
+                cat = 'data:active'
+            elif short == 'Element' and 'module.elements' in sr:
+                if re.search(r'kind is Declared', cond):
+                    cat = 'element:declared'
+                elif re.search(r'kind is Active', cond) and has_import_cond(w, r):
+                    cat = 'element:active-imported-table'
+            if cat is None:
+                extra.append('%s(%s) when [%s]' % (e['callee'].split('::')[-1], sa[:80], cond[:160]))
+            else:
+                seen.add(cat)
+                pushed_roots.setdefault(sr, set()).add(cat)
+        if w.outcome != 'return':
+            continue
+        # conditions under which documented roots must be pushed
+        for k, v in w.assumptions:
+            if not (isinstance(v, tuple) and v and v[0] == 'ctor') or (isinstance(k, tuple) and k and k[0] == 'atom'):
+                continue
+            r, pth = peel(k)
+            sr = show(r)
+            need = None
+            if 'module.data' in sr and v[1].endswith('DataKind') and v[2] == 'Active':
+                need = 'data:active'
+            elif 'module.elements' in sr and v[1].endswith('ElementKind') and v[2] == 'Declared':
+                need = 'element:declared'
+            elif 'module.elements' in sr and v[1].endswith('ElementKind') and v[2] == 'Active' and has_import_cond(w, r):
+                need = 'element:active-imported-table'
+            if need and need not in pushed_roots.get(sr, set()):
+                res.bad('roots/missing/' + need, 'root category "%s" is not pushed when [%s]' % (need, event_cond(w, r)[:200]))
     want = ['export:Function', 'export:Table', 'export:Memory', 'export:Global', 'start', 'data:active',
             'element:active-imported-table', 'element:declared', 'custom-sections']
     for c in want:
@@ -350,6 +437,18 @@ def check_roots(F, res, ev, env, pre, post, tracked):
                     else:
                         res.bad('roots/extra-post/' + re.sub(r'\W+', '_', tgt)[:40],
                                 'undocumented retention after the closure: %s into %s when [%s]' % (show(e['args'][-1]), tgt, cond))
+
+
+def has_import_cond(w, root):
+    """this world knows that the table the active segment `root` initialises is imported"""
+    for k, v in w.assumptions:
+        if isinstance(k, tuple) and k and k[0] == 'atom':
+            t = show(k[1])
+            if 'import' in t and mentions_term(k[1], root) and (('is_some(' in t and v is True) or ('is_none(' in t and v is False)):
+                return True
+        elif isinstance(v, tuple) and v and v[0] == 'ctor' and v[2] == 'Some' and 'import' in show(k) and mentions_term(k, root):
+            return True
+    return False
 
 
 def classify_root(name, arg, cond):
